@@ -66,6 +66,22 @@ class Checker(object):
     def note(self, msg):
         self.notes.append(msg)
 
+    def borrow(self, other_prop, rules, as_rule, desc, key_pred=None, min_instances=1):
+        """Some structural facts are necessary conditions of more than one property.  Run the rule module of `other_prop` on the same
+        program and take over the obligations of its rules `rules` (optionally only keys accepted by key_pred) under this property's
+        rule id `as_rule`, so that a change that breaks them is reported by this property's check too."""
+        import importlib
+        mod = importlib.import_module("pv.rules.%s" % other_prop.lower())
+        sub = Checker(other_prop, self.prog, self.tier)
+        mod.run(sub)
+        an = "; ".join(sorted({sub.rule_desc[r][0] for r in rules if r in sub.rule_desc}))
+        self.rule(as_rule, "shared with %s (%s)" % (", ".join(rules), an), desc, min_instances)
+        for o in sub.obs:
+            if o.rule in rules and (key_pred is None or key_pred(o.key)):
+                for _ in range(sub.inst_count.get((o.rule, o.key), 1)):
+                    self.ob(as_rule, "%s:%s" % (o.rule, o.key), o.ok, o.site, o.func, o.detail, o.nontrivial, o.path)
+        self.funcs_analysed |= sub.funcs_analysed
+
     def require(self, cond, msg):
         if not cond:
             raise AnalysisBroken(msg)
